@@ -302,6 +302,22 @@ func builtinMakeValidator(env *lisp.LEnv, args *lisp.LVal) *lisp.LVal {
 // finds the correct validation handler for the type
 func getHandler(env *lisp.LEnv, in *lisp.LVal, name string, constraints []*lisp.LVal) *lisp.LVal {
 	lType, _ := lisp.GoString(in)
+	// Refuse a non-constraint in the constraint list when the schema is BUILT
+	// (for a tagged-value the first entry may be the type name of the user
+	// data).  Left in place it only failed when applied, and an inverting
+	// caller (s:not, the guard of s:when) read that failure as "the constraint
+	// did not hold" and let validation pass silently.
+	for i, c := range constraints {
+		if i == 0 && lType == TaggedVal && c.Type == lisp.LString {
+			continue
+		}
+		if c.Type == lisp.LError {
+			return c
+		}
+		if !isValidator(c) {
+			return lisp.ErrorConditionf(BadArgs, "Value is not a schema constraint: %v", c)
+		}
+	}
 	var res *lisp.LVal
 	switch lType {
 	case String:
